@@ -481,6 +481,11 @@ func engineC06(c *vctx) error {
 		}
 	}
 
+	c06WriterCases(c, k, func(file []byte) (string, string) {
+		obs, _, _, _, _ := c06List(k, file, int64(len(file)))
+		return obs, c06Tab(k, file, int64(len(file)))
+	})
+
 	// ---- header-full boundary (zero-length blobs, counts only) ----
 	maxHdr := int64(pack.MaxHeaderSize)
 	runCF := func(kind string, over bool, nplainWant, ncompWant int64, pattern int) {
